@@ -13,14 +13,17 @@ rule = ("scripts = 'p fmt <description of the style> 255 255' then groups of 'p 
         "executable and re-checked by it on every run), 'p node' (real mpt_parse_node on that text; the spec "
         "alternative is exactly the normalised forest), closed by 'p end'; stream 1 enumerates EVERY ordered forest "
         "shape with <= 5 nodes (thorough: 6) x 4 name patterns (distinct / all equal / alternating / digits and dashes) x 4 value patterns x the "
-        "styles that can express it x 4 decorations; stream 2 = random forests (depth <= 5, fan-out <= 5, names "
+        "styles that can express it (brace: all; sep, bar: options + one level of sections; enc: option lists) x 4 decorations; stream 2 = random forests (depth <= 5, fan-out <= 5, names "
         "up to 300 bytes, values of 1..40 bytes and of 249..257 bytes, thorough: 65534..65537 bytes, values that "
         "need quoting, embedded quotes/backslashes/line feeds/high bytes); non-trivial = the real code returned a "
         "tree with at least one section that has children or one value, counted per distinct script")
 assumptions = [
     "forests are restricted to `Render.admissible` (names of letters/digits/_/-; values without zero byte and, "
     "when they need quotes, without a trailing backslash; flat styles: options first, one level of sections)",
-    "name flags 0xff for sections and options",
+    "name flags 0xff for sections and options; format descriptions: default (brace), '[ ] = #' (sep), '|x| = #' (bar), "
+    "'{x} = #' (enc)",
+    "the value of a node is observed through its character vector conversion (terminating zero dropped); buffer-backed "
+    "(long) values offer no 's' string conversion",
     "memory allocation never fails in the harness runs",
 ]
 trusted = ["hand-written model MptModel/Impl/Parse.lean + Impl/ParseConfig.lean tied to the real parser by "
